@@ -11,9 +11,18 @@ Functions: add_mul (DEFAULT), add_mul_karatsuba_with_efficient_sum (KARATSUBA), 
 add_square), add_mul_alter, add_mul_dadda, add_mul_wallace, add_mul_pow2_m1, generate_mul(type=every MulMode);
 add_square, add_square_pow2_m1, generate_square(type=every SquareMode).
 Small widths: all operand values, bit-parallel, operands = primary inputs / internal gates of a bijective host /
-arbitrary nodes of random hosts.  Wide (thorough; one representative in quick): the widths that reach the Karatsuba
-recursion (n >= 20 or n = 18) and the squarer split (n >= 48, n not in {49, 53}) on 256 patterns = corner operand
-values (0, 1, 2^n-1, 2^(n-1), 2^n-2, all pairs) followed by seeded random operands.
+arbitrary nodes of random hosts; n+m <= 6 (8 thorough) also the adversarial hosts of _arith_common (gates of all 14
+binary types over the first two bit positions of the operands in both operand orders) and, for add_mul, the
+call-twice mode ((b, a) first, then the checked call (a, b) in the same circuit, both results checked).
+Wide: the widths that reach the Karatsuba recursion (n >= 20 or n = 18; the longer operand decides, the shorter one
+is padded) and the squarer split (n >= 48, n not in {49, 53}) on 256 patterns in one bit-parallel batch = corner
+operand values (0, 1, 2^n-1 = all ones, 2^(n-1), 2^n-2, 0xAAAA.., 0x5555..; all 49 pairs) followed by 207 seeded
+random operand pairs.  The quick tier runs the recursing forms (the two Karatsuba forms + generate_mul[KARATSUBA],
+add_square + generate_square[DEFAULT]) on (18,18), (20,20), (21,21), (23,22), (21,11), (40,40) and squares
+n = 48, 50, 53, 54: shapes with an ODD split (n odd at some level of the recursion: the high half is one bit longer
+than the low half, so the middle term needs 2*mid+2 bits) next to shapes without one.  A failure that shows only on
+shapes with an odd split gets the token `wide-odd-split` (`kar_odd_split` / `sq_odd_split` replay the size recursion
+of multiplication.py / square.py for classification only).
 """
 from . import _arith_common as K
 from ._arith_common import Core, Frame, Variant, make_env, replay
@@ -121,17 +130,52 @@ def _token(fn, n, m):
     return _width_token(n, m)
 
 
+KAR_FUNCS = ['add_mul_karatsuba_with_efficient_sum', 'add_mul_karatsuba']
+
+
+def kar_odd_split(n):
+    """Classification only: does the Karatsuba recursion (both forms: split when n >= 20 or n == 18; sub-products of
+    sizes n - n//2, n//2 and n - n//2 + 1) started on n-bit operands split an odd size somewhere?"""
+    if n < 20 and n != 18:
+        return False
+    if n % 2:
+        return True
+    mid = n // 2
+    return kar_odd_split(n - mid) or kar_odd_split(mid) or kar_odd_split(n - mid + 1)
+
+
+def sq_odd_split(n):
+    """Classification only: add_square splits n >= 48 (except 49, 53) into squares of n//2 and n - n//2 bits and a
+    Karatsuba product of the two halves (padded to the longer one)."""
+    if n < 48 or n in (49, 53):
+        return False
+    mid = n // 2
+    return bool(n % 2) or sq_odd_split(mid) or sq_odd_split(n - mid) or kar_odd_split(n - mid)
+
+
+def _wide_core(fn, tok, odd, delegate=None):
+    if odd:
+        return Core(PROP, fn, 'wide-odd-split', delegate=delegate, alt_tokens=[tok])
+    return Core(PROP, fn, tok, delegate=delegate)
+
+
 def _mul_cases(out, driver, n, m, modes, funcs, wide=False):
     A = _A()
     for fn in funcs:
-        core = Core(PROP, fn, _token(fn, n, m))
+        core = _wide_core(fn, _token(fn, n, m), wide and fn in KAR_FUNCS and kar_odd_split(max(n, m)))
         for mode in modes:
+            if mode == 'twice' and fn != 'add_mul':
+                continue
             for be in (False, True):
                 v = Variant(be, mode)
                 env = make_env(mode, [n, m], salt=(fn, be))
-                fr = Frame(env)
                 la, lb = _rev(env.ops[0], be), _rev(env.ops[1], be)
                 args = {'len(a)': n, 'len(b)': m, 'big_endian': be} if wide else {'input_labels_a': la, 'input_labels_b': lb, 'big_endian': be}
+                tw = None
+                if mode == 'twice':      # first (b, a), then the checked call (a, b) in the same circuit
+                    tw = K.Twice(fn, v, env)
+                    tw.first(getattr(A, fn), {'input_labels_a': lb, 'input_labels_b': la, 'big_endian': be}, env.circuit, list(lb), list(la), big_endian=be)
+                fr = Frame(env)
                 res, fails = _call(fn, getattr(A, fn), v, args, fr,
                                    env.circuit, list(la), list(lb), big_endian=be)
                 out.case(driver, (fn, n, m, mode, be), sample={'function': fn, 'n': n, 'm': m, 'big_endian': be, 'operands': mode}
@@ -141,13 +185,17 @@ def _mul_cases(out, driver, n, m, modes, funcs, wide=False):
                     if fr.vals is not None:
                         exp = K.expected_vectors(env, 'a*b', lambda a, b: a * b)
                         fails += _value_and_length(fn, v, env, fr.vals, _rev(res, be), exp, mul_len(n, m), args, fr, 'a*b')
+                        if tw is not None and tw.result is not None:
+                            fails += tw.check(fr, 'value', _rev(tw.result, be), exp, 'b*a', args)
+                if tw is not None:
+                    fails += tw.fail
                 core.add(v, fails)
         core.flush(out)
     for mname, fn in MODE_TO_FUNC.items():
         if fn not in funcs:
             continue
         gname = f'generate_mul[{mname}]'
-        core = Core(PROP, gname, _token(fn, n, m), delegate=fn)
+        core = _wide_core(gname, _token(fn, n, m), wide and fn in KAR_FUNCS and kar_odd_split(max(n, m)), delegate=fn)
         for be in (False, True):
             v = Variant(be, 'generated')
             args = {'size_of_input_a': n, 'size_of_input_b': m, 'type': f'MulMode.{mname}', 'big_endian': be}
@@ -187,7 +235,7 @@ def _check_generated(fn, v, c, widths, be, args, key, f, want_len, wide):
 def _sq_cases(out, driver, n, modes, funcs, wide=False):
     A = _A()
     for fn in funcs:
-        core = Core(PROP, fn, _width_token(n))
+        core = _wide_core(fn, _width_token(n), wide and fn == 'add_square' and sq_odd_split(n))
         for mode in modes:
             for be in (False, True):
                 v = Variant(be, mode)
@@ -209,7 +257,7 @@ def _sq_cases(out, driver, n, modes, funcs, wide=False):
         if fn not in funcs:
             continue
         gname = f'generate_square[{mname}]'
-        core = Core(PROP, gname, _width_token(n), delegate=fn)
+        core = _wide_core(gname, _width_token(n), wide and fn == 'add_square' and sq_odd_split(n), delegate=fn)
         for be in (False, True):
             v = Variant(be, 'generated')
             args = {'number_inputs': n, 'type': f'SquareMode.{mname}', 'big_endian': be}
@@ -239,21 +287,24 @@ def task_wide_sq(out, n, funcs):
 
 def run_bounded(rep, quick):
     W = 10 if quick else 16
+    wa = 6 if quick else 8
     rep.bounded_driver(D_MUL, f'7 add_mul* forms and generate_mul for the 6 MulMode values on all width pairs n+m <= {W}, all 2^(n+m) operand values '
                        'bit-parallel, both endiannesses, operands = primary inputs / internal gates of a bijective host / arbitrary nodes of random hosts (n+m <= 6); '
+                       f'n+m <= {wa}: adversarial hosts (gates of all 14 binary types over the first two bit positions of the operands, both operand orders) and add_mul called twice ((b, a) then (a, b), both results checked); '
                        'value a*b, result length, frame clauses' + ('; plus the thin shapes (2,11),(2,12),(11,2),(3,11),(1,13),(13,1) on primary inputs' if quick else ''),
                        f'n+m <= {W} exhaustive values', exhaustive=True)
     rep.bounded_driver(D_SQ, f'add_square, add_square_pow2_m1, generate_square (2 modes), all n <= {W}, all operand values, both endiannesses, '
                        'operands inputs / host gates / random host nodes (n <= 6); value a^2, length 2n (1 for n=1), frame clauses',
                        f'n <= {W} exhaustive values', exhaustive=True)
     rep.bounded_driver(D_WIDE, 'widths reaching the Karatsuba recursion / squarer split: ' +
-                       ('18x18 (both Karatsuba forms)' if quick else
-                        'mul (18,18) all forms; (20,20),(21,20),(20,21),(37,37),(18,5),(20,1),(1,20),(24,25),(40,40) Karatsuba forms + generate_mul; thin shapes (2,20),(20,2),(3,28),(28,3),(4,30),(5,33),(2,40) all forms; squares n = 48, 49, 50, 53, 64 both forms + generate_square')
-                       + '; 256 patterns = corner operand values then seeded random operands, both endiannesses', '256 patterns per circuit', exhaustive=False)
+                       ('mul (18,18),(20,20),(21,21),(23,22),(21,11),(40,40) both Karatsuba forms + generate_mul[KARATSUBA]; squares n = 48, 50, 53, 54 add_square + generate_square[DEFAULT]' if quick else
+                        'mul (18,18) all forms; (20,20),(21,20),(20,21),(21,21),(23,22),(21,11),(25,25),(37,37),(18,5),(20,1),(1,20),(24,25),(40,40) Karatsuba forms + generate_mul; thin shapes (2,20),(20,2),(3,28),(28,3),(4,30),(5,33),(2,40) all forms; squares n = 48, 49, 50, 53, 54, 64 both forms + generate_square')
+                       + '; 256 patterns in one bit-parallel batch = the 49 pairs of corner operand values (0, 1, all ones, 2^(n-1), 2^n-2, 0xAA.., 0x55..) then seeded random operands, both endiannesses; '
+                       'shapes whose recursion splits an odd size are classified wide-odd-split', '256 patterns per circuit', exhaustive=False)
     tasks = []
     for n in range(1, W):
         for m in range(1, W - n + 1):
-            modes = ['bare', 'host'] + (['hostrand'] if n + m <= 6 else [])
+            modes = ['bare', 'host'] + (['hostrand'] if n + m <= 6 else []) + (K.ADV_MODES if n + m <= wa else [])
             tasks.append(('task_mul', (n, m, modes)))
     if quick:   # thin shapes beyond the quick width bound (cheap; the long-by-short shapes stress the row reductions)
         for n, m in ((2, 11), (2, 12), (11, 2), (3, 11), (1, 13), (13, 1)):
@@ -261,15 +312,20 @@ def run_bounded(rep, quick):
     for n in range(1, W + 1):
         modes = ['bare', 'host'] + (['hostrand'] if n <= 6 else [])
         tasks.append(('task_sq', (n, modes)))
-    kar = ['add_mul_karatsuba_with_efficient_sum', 'add_mul_karatsuba']
+    kar = KAR_FUNCS
     if quick:
-        tasks.append(('task_wide_mul', (18, 18, kar)))
+        # the recursing forms only; shapes without an odd split first ((18,18), (20,20), n = 48, 53), then shapes whose
+        # recursion splits an odd size: 21, 23, 21 (short operand padded), 40 -> inner 21; squares 50 -> 25, 54 -> 27
+        for n, m in ((18, 18), (20, 20), (21, 21), (23, 22), (21, 11), (40, 40)):
+            tasks.append(('task_wide_mul', (n, m, kar)))
+        for n in (48, 50, 53, 54):
+            tasks.append(('task_wide_sq', (n, ['add_square'])))
     else:
         tasks.append(('task_wide_mul', (18, 18, MUL_FUNCS)))
-        for n, m in ((20, 20), (21, 20), (20, 21), (37, 37), (18, 5), (20, 1), (1, 20), (24, 25), (40, 40)):
+        for n, m in ((20, 20), (21, 20), (20, 21), (21, 21), (23, 22), (21, 11), (25, 25), (37, 37), (18, 5), (20, 1), (1, 20), (24, 25), (40, 40)):
             tasks.append(('task_wide_mul', (n, m, kar)))
         for n, m in ((2, 20), (20, 2), (3, 28), (28, 3), (4, 30), (5, 33), (2, 40)):   # thin shapes, every form
             tasks.append(('task_wide_mul', (n, m, MUL_FUNCS)))
-        for n in (48, 49, 50, 53, 64):
+        for n in (48, 49, 50, 53, 54, 64):
             tasks.append(('task_wide_sq', (n, SQ_FUNCS)))
     K.run_tasks(rep, PROP, __name__, tasks, quick)
